@@ -1,5 +1,5 @@
 """C17 — moto_prettier upper-cases code and never touches string literals"""
-from framework import CaseResult, text_points, points_text
+from framework import scale, CaseResult, text_points, points_text
 from props.textcommon import run_text_tool, model_inputs, out_lines, input_lines
 
 GEN_FILES = ["GenText"]
@@ -73,7 +73,7 @@ def gen_text(rng, files):
 
 
 def gen_cases(rng, tier):
-    n = 400 if tier == "quick" else 6000
+    n = scale(tier, 400, 6000)
     cases = []
     hist = {"random": 0, "exhaustive_small": 0}
     for _ in range(n):
@@ -86,7 +86,7 @@ def gen_cases(rng, tier):
         hist["random"] += 1
     # every quote pattern over a tiny alphabet
     import itertools
-    L = 5 if tier == "quick" else 7
+    L = 7 if tier == "thorough" else 5
     alpha = 'a"'
     batch = []
     for n_ in range(0, L + 1):
